@@ -295,8 +295,82 @@ def sub_ensemble(ctx):
     ctx.run_cases("ensemble", chk_ensemble, cases)
 
 
-SUBS = [("index_maps", sub_index_maps), ("dist", sub_dist), ("ensemble", sub_ensemble)]
-FNS = {"index_maps": chk_index_shape, "dist": chk_dist, "ensemble": chk_ensemble}
+# ------------------------------------------------------------------ ensembles produced by measurements
+def _rand_unitary(rs, d):
+    a = rs.normal(size=(d, d)) + 1j * rs.normal(size=(d, d))
+    q, r = np.linalg.qr(a)
+    return q * (np.diag(r) / np.abs(np.diag(r)))
+
+
+def _instrument(rs, d, m):
+    """m-outcome instrument with one Kraus operator per outcome: K_x = U_x sqrt(E_x), sum E_x = I, generic"""
+    g = [(lambda a: a @ a.conj().T)(rs.normal(size=(d, d)) + 1j * rs.normal(size=(d, d))) for _ in range(m)]
+    s = sum(g)
+    w, v = np.linalg.eigh(s)
+    sinv = v @ np.diag(w ** -0.5) @ v.conj().T
+    ks = []
+    for a in g:
+        e = sinv @ a @ sinv
+        w2, v2 = np.linalg.eigh(e)
+        ks.append(_rand_unitary(rs, d) @ (v2 @ np.diag(np.sqrt(np.clip(w2, 0, None))) @ v2.conj().T))
+    return ks
+
+
+def chk_ensemble_mprocess(ctx, case):
+    """a state measured once / twice by instruments with DIFFERENT outcome counts: the ensemble's distribution
+    and states must be laid out by the same (row-major, earlier measurement first) multi-index"""
+    from quara.objects.composite_system_typical import generate_composite_system
+    from quara.objects.operators import compose_qoperations
+    from quara.objects.mprocess import MProcess
+    from quara.objects.state import State
+    from quara.objects.gate import to_hs_from_kraus_matrices
+    m = ctx.get_model()
+    rs = np.random.RandomState(case["seed"])
+    kind, d = case["sys"], (2 if case["sys"] == "qubit" else 3)
+    c = generate_composite_system(kind, 1)
+    a = rs.normal(size=(d, d)) + 1j * rs.normal(size=(d, d))
+    rho = a @ a.conj().T; rho /= np.trace(rho).real
+    from quara.objects.state import to_vec_from_density_matrix_with_sparsity
+    st = State(c, to_vec_from_density_matrix_with_sparsity(c, rho).real.astype(float), is_physicality_required=False)
+    chains = [_instrument(rs, d, n) for n in case["counts"]]
+    mps = [MProcess(c, [to_hs_from_kraus_matrices(c, [k]) for k in ks], is_physicality_required=False) for ks in chains]
+    ens = compose_qoperations(mps[0], st)
+    for mp in mps[1:]:
+        ens = compose_qoperations(mp, ens)
+    shape = list(case["counts"])
+    if list(ens.prob_dist.shape) != shape:
+        ctx.violation("ensemble_mprocess", "compose MProcess on state/ensemble", "shape", "ensemble shape %s, expected %s" % (ens.prob_dist.shape, shape), case)
+        return
+    for idx in itertools.product(*[range(n) for n in shape]):
+        x = rho
+        for ks, i in zip(chains, idx):
+            x = ks[i] @ x @ ks[i].conj().T
+        p = np.trace(x).real
+        k_model = int(m.call("idx.serial_from_multi", [len(shape)] + shape + list(idx))[0])
+        ctx.count("ensemble_mprocess", key=(case["seed"], tuple(shape), idx), nontrivial=len(shape) >= 2 and len(set(shape)) > 1)
+        got_p = float(ens.prob_dist[tuple(idx)]) if len(idx) > 1 else float(ens.prob_dist[int(idx[0])])
+        if abs(got_p - p) > 1e-9 or abs(float(ens.prob_dist.ps[k_model]) - p) > 1e-9:
+            ctx.violation("ensemble_mprocess", "compose MProcess on state/ensemble", "probability-layout", "outcome %s: probability %s (flat entry %s), Born rule gives %s" % (idx, got_p, ens.prob_dist.ps[k_model], p), dict(case, idx=list(idx)))
+            continue
+        if p > 1e-6:
+            post = x / p
+            got = ens.state(tuple(idx) if len(idx) > 1 else int(idx[0])).to_density_matrix()
+            got2 = ens.states[k_model].to_density_matrix()
+            if np.abs(got - post).max() > 1e-8 or np.abs(got2 - post).max() > 1e-8:
+                ctx.violation("ensemble_mprocess", "compose MProcess on state/ensemble", "state-layout", "outcome %s: post-measurement state differs from K rho K^dag / p by %.3g" % (idx, np.abs(got - post).max()), dict(case, idx=list(idx)))
+
+
+def sub_ensemble_mprocess(ctx):
+    cases = []
+    for i in range(ctx.n(24, 200)):
+        counts = ctx.rng.choice([[2], [3], [2, 3], [3, 2], [2, 4], [4, 3], [3, 2, 2], [2, 3, 4]][: (5 if ctx.quick else 8)])
+        cases.append({"seed": ctx.rng.randrange(10 ** 6), "sys": ctx.rng.choice(["qubit", "qubit", "qutrit"]), "counts": counts})
+    ctx.sample("ensemble_mprocess", cases[0])
+    ctx.run_cases("ensemble_mprocess", chk_ensemble_mprocess, cases)
+
+
+SUBS = [("index_maps", sub_index_maps), ("dist", sub_dist), ("ensemble", sub_ensemble), ("ensemble_mprocess", sub_ensemble_mprocess)]
+FNS = {"index_maps": chk_index_shape, "dist": chk_dist, "ensemble": chk_ensemble, "ensemble_mprocess": chk_ensemble_mprocess}
 
 
 def run(ctx):
